@@ -204,6 +204,7 @@ func runC09(c *eng.Ctx) {
 	runC09Raw(c, next)
 	runC09ClosePanic(c, next)
 	runC09NestedCreate(c, next)
+	runC09Join(c, next)
 }
 
 func runC09Stress(c *eng.Ctx, next func() (int, bool)) {
